@@ -287,11 +287,12 @@ impl World {
                     }
                 };
                 let a = self.alloc.as_mut().unwrap();
-                let r = catch(|| {
-                    let r = a.try_allocate(&rq);
-                    a.validate();
-                    r
-                });
+                let r = catch(|| a.try_allocate(&rq));
+                let a = self.alloc.as_ref().unwrap();
+                let vpanic = r.is_ok() && catch(|| a.validate()).is_err();
+                if vpanic {
+                    self.dead = true;
+                }
                 match r {
                     Ok(Some(al)) => {
                         let fw: Vec<String> = al
@@ -331,11 +332,17 @@ impl World {
                         .unwrap();
                         self.live.push(al);
                         self.snap();
+                        if vpanic {
+                            writeln!(self.out, "= VALIDATE-PANIC").unwrap();
+                        }
                     }
                     Ok(None) => {
                         writeln!(self.out, "O ALLOC {} |{}", req_str(&es), w).unwrap();
                         writeln!(self.out, "= NONE").unwrap();
                         self.snap();
+                        if vpanic {
+                            writeln!(self.out, "= VALIDATE-PANIC").unwrap();
+                        }
                     }
                     Err(_) => {
                         writeln!(self.out, "O ALLOC {} |{}", req_str(&es), w).unwrap();
@@ -369,13 +376,19 @@ impl World {
                 writeln!(self.out, "O REL {k}").unwrap();
                 let al = self.live.remove(*k);
                 let a = self.alloc.as_mut().unwrap();
-                match catch(|| {
-                    a.release(al);
-                    a.validate();
-                }) {
+                let r = catch(|| a.release(al));
+                let a = self.alloc.as_ref().unwrap();
+                let vpanic = r.is_ok() && catch(|| a.validate()).is_err();
+                if vpanic {
+                    self.dead = true;
+                }
+                match r {
                     Ok(()) => {
                         writeln!(self.out, "= RELEASED").unwrap();
                         self.snap();
+                        if vpanic {
+                            writeln!(self.out, "= VALIDATE-PANIC").unwrap();
+                        }
                     }
                     Err(_) => {
                         writeln!(self.out, "= PANIC").unwrap();
